@@ -265,11 +265,11 @@ def pctEncode (extra : List Nat) (s : Str) : Str :=
 
 /-- `Rule::markers()` as `(name, regex)` pairs. -/
 def Rule.routeMarkers (r : Rule) : List (Str × Str) :=
-  r.markers.map fun m => (m.name, pctEncode Rio.Consts.encSetRuleRsSimpleEncodeSet m.regex)
+  r.markers.map fun m => (m.name, pctEncode Rio.Consts.markerRegexEncodeSet m.regex)
 
 /-- `Rule::path_and_query` without query. -/
 def Rule.pathSoD (cf : CaseFns) (r : Rule) (cfg : Config) : StaticOrDynamic :=
-  .newWithMarkers cf.lower (pctEncode Rio.Consts.encSetRuleRsUrlEncodeSet r.path) r.routeMarkers cfg.ignorePathCase
+  .newWithMarkers cf.lower (pctEncode Rio.Consts.markerPathEncodeSet r.path) r.routeMarkers cfg.ignorePathCase
 
 /-- `Rule::host` -/
 def Rule.hostSoD (cf : CaseFns) (r : Rule) (cfg : Config) : Option StaticOrDynamic :=
